@@ -7,6 +7,7 @@ import (
 	"strings"
 
 	"github.com/lyraproj/issue/issue"
+	"github.com/lyraproj/pcore/pcore"
 	"github.com/lyraproj/pcore/px"
 	"github.com/lyraproj/pcore/types"
 	"verifharness/lib"
@@ -397,6 +398,10 @@ func newWorld(c px.Context) *world {
 	return &world{c: c, loaders: []px.Loader{px.StaticLoader()}, ctxs: []px.Context{nil}, typeset: []bool{false}, parent: []int{-1}, midx: []int{0}}
 }
 
+// Every loader of a history but the (shared) static one has a context of its own that lives as long as the history:
+// the forked context for a loader made by Fork, else a context made for the loader.  All operations "through loader l"
+// (px.Load, Fork, px.AddTypes, and the context argument of LoadEntry/Discover) use that context, so what an operation
+// leaves behind in the context - the loader it holds - is met by the operations that follow.
 func (w *world) with(l int, f func(c px.Context)) {
 	if w.ctxs[l] != nil {
 		f(w.ctxs[l])
@@ -405,7 +410,25 @@ func (w *world) with(l int, f func(c px.Context)) {
 	w.c.DoWithLoader(w.loaders[l], func() { f(w.c) })
 }
 
+// ctxLoader: the model's number of the loader that the context of loader l holds (999999: a loader out of reach,
+// e.g. a type-set loader made by the resolution of a type set)
+func (w *world) ctxLoader(l int) int {
+	if l < 0 || l >= len(w.loaders) || w.ctxs[l] == nil {
+		return w.ml(l)
+	}
+	cl := w.ctxs[l].Loader()
+	for j, x := range w.loaders {
+		if x == cl {
+			return w.midx[j]
+		}
+	}
+	return 999999
+}
+
 func (w *world) add(l px.Loader, c px.Context, parent int, typeset bool) string {
+	if c == nil {
+		c = pcore.WithParent(w.c, l, w.c.Logger(), w.c.ImplementationRegistry())
+	}
 	w.loaders = append(w.loaders, l)
 	w.ctxs = append(w.ctxs, c)
 	w.parent = append(w.parent, parent)
@@ -465,7 +488,7 @@ func (w *world) apply(o opT) (res string) {
 		var cf px.Context
 		w.with(o.L, func(c px.Context) { cf = c.Fork() })
 		if pl, ok := cf.Loader().(px.ParentedLoader); !ok || pl.Parent() != l {
-			return "RFault (* Fork: the new context's loader is not parented by the forked context's loader *)"
+			return "RBadLoader (* Fork: the new loader is not parented by the loader of the forked context *)"
 		}
 		return w.add(cf.Loader(), cf, o.L, false)
 	case "NewTypeSet":
